@@ -16,7 +16,8 @@ ASSUMPTIONS = ["k-mer code = sum idx(c_j)*|A|^j (first letter least significant)
                "row-local Python definitions (R4) are the reference"]
 EXHAUSTIVE_CORE = None
 
-ALPHABETS = {"ACGTEncoding": "ACGT", "ACTGEncoding": "ACTG", "ACUGEncoding": "ACUG", "ACGTnEncoding": "ACGTN", "AminoAcidEncoding": "ACDEFGHIKLMNPQRSTVWY*"}
+ALPHABETS = {"ACGTEncoding": "ACGT", "ACTGEncoding": "ACTG", "ACUGEncoding": "ACUG", "ACGTnEncoding": "ACGTN", "AminoAcidEncoding": "ACDEFGHIKLMNPQRSTVWY*",
+             "custom:AB": "AB", "custom:XYZ": "XYZ", "custom:ACGTRYKM": "ACGTRYKM"}
 
 
 def preload():
@@ -62,7 +63,39 @@ def run(ctx):
     from bionumpy.encodings.kmer_encodings import KmerEncoding
     from bnpmon.util import bounds_violation
     rng = ctx.rng
-    encs = {n: getattr(ae, n) for n in ALPHABETS}
+    encs = {n: (getattr(ae, n) if not n.startswith("custom:") else ae.AlphabetEncoding(ALPHABETS[n])) for n in ALPHABETS}
+
+    def selected(seqs, rows, c):
+        """optionally hand the function a row SELECTION (a view: nothing materialises it before the call)"""
+        sel = c.get("select")
+        if not sel:
+            return seqs, rows
+        if sel[0] == "fancy":
+            return seqs[np.array(sel[1], dtype=int)], [rows[i] for i in sel[1]]
+        if sel[0] == "slice":
+            return seqs[sel[1]:], rows[sel[1]:]
+        if sel[0] == "mask":
+            m = np.array(sel[1], dtype=bool)
+            return seqs[m], [x for x, k in zip(rows, sel[1]) if k]
+        return seqs, rows
+
+    def gen_select(rows, w):
+        n = len(rows)
+        if n < 2 or rng.random() < 0.6:
+            return None
+        k = rng.random()
+        if k < 0.4:
+            sel = ("fancy", [rng.randrange(n) for _ in range(rng.randint(1, n + 1))])
+            kept = [rows[i] for i in sel[1]]
+        elif k < 0.7:
+            a = rng.randint(1, n - 1)
+            sel, kept = ("slice", a), rows[a:]
+        else:
+            mk = [rng.random() < 0.6 for _ in rows]
+            sel, kept = ("mask", mk), [x for x, q in zip(rows, mk) if q]
+        if sum(map(len, kept)) < w or not kept:
+            return None
+        return sel
 
     def wclass(w):
         return "w=1" if w == 1 else ("w>=2")
@@ -78,6 +111,7 @@ def run(ctx):
         alphabet = ALPHABETS[ename]
         enc = encs[ename]
         seqs = bnp.as_encoded_array(rows, enc)
+        seqs, rows = selected(seqs, rows, c)
         res = bnp.get_kmers(seqs, k)
         sanitize(res, "get_kmers", c)
         codes = res.raw().tolist()
@@ -113,6 +147,7 @@ def run(ctx):
         if len(alphabet) ** k > 5000:
             return
         seqs = bnp.as_encoded_array(rows, encs[ename])
+        seqs, rows = selected(seqs, rows, c)
         res = count_kmers(seqs, k)
         exp = Counter(w for r in rows for w in windows(r, k))
         labels = res.alphabet if hasattr(res, "alphabet") else None
@@ -127,6 +162,7 @@ def run(ctx):
         if len(alphabet) ** k >= 2 ** 63:
             return
         seqs = bnp.as_encoded_array(rows, encs[ename])
+        seqs, rows = selected(seqs, rows, c)
         res = bnp.get_minimizers(seqs, k, w)
         sanitize(res, "get_minimizers", c)
         got = res.raw().tolist()
@@ -140,6 +176,7 @@ def run(ctx):
             seqs = bnp.as_encoded_array(rows)
         else:
             seqs = bnp.as_encoded_array(rows, encs[ename])
+        seqs, rows = selected(seqs, rows, c)
         res = bnp.match_string(seqs, pat)
         sanitize(res, "match_string", c)
         got = [[bool(x) for x in r] for r in res.tolist()]
@@ -154,6 +191,7 @@ def run(ctx):
             pwm = PWM(np.log(np.array(mat, dtype=float)), alphabet)
             logm = np.log(np.array(mat, dtype=float))
         seqs = bnp.as_encoded_array(rows) if ename == "ascii" else bnp.as_encoded_array(rows, encs[ename])
+        seqs, rows = selected(seqs, rows, c)
         res = bnp.get_motif_scores(seqs, pwm)
         sanitize(res, "get_motif_scores", c)
         got = res.tolist()
@@ -184,17 +222,17 @@ def run(ctx):
         rows = gen_rows(rng, alphabet, w)
         kind = rng.random()
         if kind < 0.3:
-            ctx.run_case(case_kmers, {"fn": "get_kmers", "enc": ename, "rows": rows, "k": w})
+            ctx.run_case(case_kmers, {"fn": "get_kmers", "enc": ename, "rows": rows, "k": w, "select": gen_select(rows, w)})
         elif kind < 0.4:
-            ctx.run_case(case_count, {"fn": "count_kmers", "enc": ename, "rows": rows, "k": min(w, 5)})
+            ctx.run_case(case_count, {"fn": "count_kmers", "enc": ename, "rows": rows, "k": min(w, 5), "select": gen_select(rows, w)})
         elif kind < 0.6:
             k = rng.randint(1, w)
-            ctx.run_case(case_minimizers, {"fn": "get_minimizers", "enc": ename, "rows": rows, "k": k, "w": w})
+            ctx.run_case(case_minimizers, {"fn": "get_minimizers", "enc": ename, "rows": rows, "k": k, "w": w, "select": gen_select(rows, w)})
         elif kind < 0.8:
             pr = [x for x in rows if len(x) >= w]
             pat = rng.choice(pr)[:w] if pr and rng.random() < 0.7 else "".join(rng.choice(alphabet) for _ in range(w))
             use = rng.choice([ename, "ascii"])
-            ctx.run_case(case_match, {"fn": "match_string", "enc": use, "rows": rows, "pattern": pat})
+            ctx.run_case(case_match, {"fn": "match_string", "enc": use, "rows": rows, "pattern": pat, "select": gen_select(rows, w)})
         elif kind < 0.93:
             w2 = min(w, 8)
             al = "ACGT"
@@ -206,6 +244,18 @@ def run(ctx):
             ctx.run_case(case_kmer_encoding, {"fn": "KmerEncoding", "enc": ename, "k": w, "kmers": kmers})
         if i < 3:
             ctx.sample({"enc": ename, "rows": rows, "w": w})
+    def case_big_count(c):
+        r = random.Random(c["seed"])
+        nrows, L, k = c["nrows"], c["len"], c["k"]
+        rows = ["".join(r.choices("ACGT", k=L)) for _ in range(nrows)]
+        seqs = bnp.as_encoded_array(rows, encs["ACGTEncoding"])
+        res = count_kmers(seqs, k)
+        exp = Counter(w for x in rows for w in windows(x, k))
+        got = {l: n for l, n in zip(res.alphabet, np.asarray(res.counts).ravel().tolist()) if n}
+        ctx.check("count_kmers", got == dict(exp), "count_kmers/counts:more-than-1e6-windows", "count_kmers over %d windows: total %d, expected %d" % (sum(exp.values()), sum(got.values()), sum(exp.values())),
+                  {"nrows": nrows, "len": L, "k": k, "seed": c["seed"], "got_total": sum(got.values()), "expected_total": sum(exp.values())}, ("big", c["seed"]))
+    if ctx.shard < ctx.pick(1, 6):
+        ctx.run_case(case_big_count, {"seed": ctx.seed * 31 + ctx.shard, "nrows": 11 + ctx.shard, "len": 100003, "k": 3})
     ctx.floor("judged:get_kmers:count", ctx.pick(50, 2000))
     ctx.floor("judged:get_minimizers", ctx.pick(50, 2000))
     ctx.floor("judged:match_string", ctx.pick(50, 2000))
